@@ -453,4 +453,70 @@ def check_C19(run):
                 evaluations=s["observations"], distinct_nontrivial=s["distinct"], exhaustive=False)
 
 
-CHECKS = {"C19": check_C19, "C12": check_C12, "C15": check_C15, "C17": check_C17, "C18": check_C18, "C07": check_C07, "C08": check_C08, "C09": check_C09, "C10": check_C10, "C11": check_C11, "C14": check_C14, "C06": check_C06, "C13": check_C13, "C20": check_C20, "C04": check_C04, "C05": check_C05, "C03": check_C03, "C01": check_C01, "C02": check_C02}
+# ---------------------------------------------------------------------------
+# C16: concurrency (Concurrent.tla, MC_Sched, Trace_Concurrent, Go race detector)
+# ---------------------------------------------------------------------------
+def run_race_harness(run, binary, args, what):
+    """Runs the -race harness; a data-race report is a violation (exit code 66 / 'DATA RACE')."""
+    import subprocess
+    e = dict(os.environ, VERIF_SEED=str(run.seed), GORACE="halt_on_error=0 exitcode=66")
+    p = subprocess.run([binary] + args, cwd=run.work, capture_output=True, text=True, timeout=3600, env=e)
+    if "DATA RACE" in p.stderr or p.returncode == 66:
+        log_path = vlib.save_replay(run, "race_%d" % len(run.violations), {"property": "C16", "what": what, "args": args, "seed": run.seed,
+                                                                              "race_report": p.stderr[:6000]})
+        first = [l for l in p.stderr.splitlines() if l.strip().startswith(("Write at", "Read at", "Previous write", "Previous read"))][:2]
+        run.violations.append({"what": "data race reported by the Go race detector during %s: %s" % (what, " / ".join(first)), "replay": log_path})
+    elif p.returncode != 0:
+        raise Infra("race harness %s failed rc=%d: %s" % (args[:2], p.returncode, p.stderr[-2000:]))
+    line = [l for l in p.stdout.splitlines() if l.startswith("{")]
+    return json.loads(line[-1]) if line else None
+
+
+def check_C16(run):
+    # 1. the design: every interleaving of the pure model is race free with sequential results;
+    #    each deliberate deviation must be caught (non-vacuity of the invariants)
+    vlib.run_tlc(run, "Concurrent", cfg="MC_Concurrent_pure", tag="Concurrent-pure")
+    for v in ("LazyTable", "MemoScore", "SharedNames", "SharedScratch"):
+        r = vlib.run_tlc(run, "Concurrent", cfg="MC_Concurrent_" + v, tag="Concurrent-" + v, allow_violation=True)
+        if "is violated" not in r["stdout"]:
+            raise Infra("negative control %s of Concurrent.tla was not caught by TLC: the invariants are vacuous" % v)
+    run.cov["negative_controls_caught"] = 4
+    # 2. schedules from TLC
+    res = vlib.run_tlc(run, "MC_Sched", dump=True, workers=2)
+    sp = run.path("scheds.ndjson")
+    n = 0
+    with open(sp, "w") as f:
+        for st in vlib.parse_dump(res["dump"]):
+            if len(st["sched"]) == 8:
+                f.write(json.dumps({"sched": st["sched"]}) + "\n")
+                n += 1
+    race_bin = vlib.build_harness(run, race=True)
+    chunks, obs, dist = [], 0, 0
+    s = run_race_harness(run, race_bin, ["conc-replay", "-in", sp, "-pairs", "12" if run.quick else "80", "-out", run.work], "gated schedule replay")
+    if s:
+        chunks += s["chunks"]; obs += s["observations"]; dist += s["distinct"]
+        run.cov.update(s["extra"])
+        run.samples += s.get("samples", [])[:2]
+    cfgs = [("32", "300", "0"), ("16", "300", "2")] if run.quick else [("64", "3000", "0"), ("16", "3000", "2"), ("64", "1500", "4"), ("128", "800", "16")]
+    for i, (g, ops, procs) in enumerate(cfgs):
+        d = run.path("stress%d" % i)
+        os.makedirs(d)
+        s = run_race_harness(run, race_bin, ["conc-stress", "-g", g, "-ops", ops, "-procs", procs, "-out", d], "stress run g=%s ops=%s GOMAXPROCS=%s" % (g, ops, procs))
+        if s:
+            chunks += s["chunks"]; obs += s["observations"]; dist += s["distinct"]
+            run.samples += s.get("samples", [])[:1]
+    verdicts = vlib.validate_trace(run, "Trace_Concurrent", chunks, label="conc")
+    judge(run, verdicts, describe=lambda ev: json.dumps({k: ev.get(k) for k in ("sched", "jobs", "g", "seq", "op")}))
+    run.cov["schedules_from_tlc"] = n
+    run.assumptions += ["data-race freedom as such is sensed by the Go race detector while the conformance traces are recorded (harness built with -race); "
+                        "the TLA+ model contributes the interleavings that are replayed and the statement of what must stay constant",
+                        "schedules are replayed through the build-tag-guarded decodeOne hook; if a refactoring removes the gate points the replay "
+                        "degrades to an ungated concurrent run (counted in replays_ungated)"]
+    return dict(level=EXPL, rule="(i) all C(8,4)=70 interleavings TLC generates for 4 gated decodeOne steps of two goroutines, each replayed "
+                "deterministically for seeded pairs of decode jobs (valid, duplicate-token and invalid vectors of all six decoder kinds); "
+                "(ii) free-running stress: seeded operation mixes (decode own object, query shared decoded objects, lower-level views, report "
+                "construction + template export, display names) on 16-128 goroutines under several GOMAXPROCS; all under the race detector; "
+                "every result validated by TLC against the sequential reference", evaluations=obs, distinct_nontrivial=dist, exhaustive=False)
+
+
+CHECKS = {"C16": check_C16, "C19": check_C19, "C12": check_C12, "C15": check_C15, "C17": check_C17, "C18": check_C18, "C07": check_C07, "C08": check_C08, "C09": check_C09, "C10": check_C10, "C11": check_C11, "C14": check_C14, "C06": check_C06, "C13": check_C13, "C20": check_C20, "C04": check_C04, "C05": check_C05, "C03": check_C03, "C01": check_C01, "C02": check_C02}
